@@ -102,6 +102,13 @@ def gen_network(rng, sw):
     if rng.random() < sw.get("p_empty_objective", 0.0):
         obj = {}
     direction = "max" if rng.random() < 0.85 else "min"
+    if rng.random() < sw.get("p_wrong_sign_optimum", 0.08):
+        # an optimum below zero when maximising / above zero when minimising: a cost on a flux that is forced to run
+        r = rng.choice([x for x in rxns if x["id"] != "BIO"] or rxns)
+        if not (r["lb"] > 0):
+            r["lb"], r["ub"] = rng.choice([(1, 10), (0.5, 1000), (2, 5)])
+        direction = rng.choice(["max", "min"])
+        obj = {r["id"]: -1 if direction == "max" else 1}
     return {"id": "net", "name": None, "comps": {"c": "cytosol", "e": "extracellular"}, "mets": mets, "rxns": rxns,
             "objective": obj, "direction": direction, "groups": [], "solver": sw.get("solver", "glpk")}
 
@@ -172,8 +179,9 @@ def exact_fva(ref, rids, fraction, pfba_factor=None):
         lp = lp.with_row(oe, bound, None) if ref.direction == "max" else lp.with_row(oe, None, bound)
     if pfba_factor is not None:
         tot = {j: 1 for j in range(lp.ncols)}
-        lp0 = lp.with_row(oe, 0, None) if ref.direction == "max" else lp.with_row(oe, None, 0)
-        m = reflp.solve(lp0, tot, "min")
+        # the smallest total flux among the points that satisfy the objective pin above (and nothing else: an extra "objective >= 0"
+        # would be a different - and for an optimum below zero infeasible - problem)
+        m = reflp.solve(lp, tot, "min")
         if not m.certified or m.status != "optimal":
             return None
         lp = lp.with_row(tot, None, m.value * reflp.Fraction(pfba_factor).limit_denominator(10 ** 6))
